@@ -1,0 +1,68 @@
+//! verification hooks (compiled only with `--cfg chokan_verif`):
+//! - `point(name)`: appends the point's name to the file named by CHOKAN_VERIF_TRACE and sleeps for the number of
+//!   milliseconds given for that name in CHOKAN_VERIF_DELAYS ("name=ms,name=ms")
+//! - counters of asynchronous hand-offs and the `Verif.Dump` RPC method
+use std::{
+    io::Write,
+    sync::{
+        atomic::{AtomicU64, Ordering},
+        Arc, Mutex,
+    },
+};
+
+use jsonrpsee::{core::RpcResult, RpcModule};
+
+use crate::{method_context::MethodContext, session::SessionStore};
+
+pub static ENTRIES_SENT: AtomicU64 = AtomicU64::new(0);
+pub static ENTRIES_APPLIED: AtomicU64 = AtomicU64::new(0);
+pub static SAVES_DONE: AtomicU64 = AtomicU64::new(0);
+
+pub fn count(c: &AtomicU64) {
+    c.fetch_add(1, Ordering::SeqCst);
+}
+
+pub fn point(name: &str) {
+    if let Ok(path) = std::env::var("CHOKAN_VERIF_TRACE") {
+        if let Ok(mut f) = std::fs::OpenOptions::new().create(true).append(true).open(path) {
+            let _ = writeln!(f, "{:?} {}", std::thread::current().id(), name);
+        }
+    }
+    if let Ok(delays) = std::env::var("CHOKAN_VERIF_DELAYS") {
+        for item in delays.split(',') {
+            if let Some((n, ms)) = item.split_once('=') {
+                if n == name {
+                    if let Ok(ms) = ms.parse::<u64>() {
+                        std::thread::sleep(std::time::Duration::from_millis(ms));
+                    }
+                }
+            }
+        }
+    }
+}
+
+pub fn register(module: &mut RpcModule<MethodContext>, store: Arc<Mutex<SessionStore>>) -> anyhow::Result<()> {
+    module.register_method("Verif.Dump", move |_, ctx, _| {
+        let (freq, entries) = {
+            let pref = ctx.user_pref.lock().unwrap();
+            let freq: Vec<serde_json::Value> = pref
+                .frequency()
+                .verif_entries()
+                .into_iter()
+                .map(|(c, w, n, last)| serde_json::json!([serde_json::to_value(&c).unwrap(), w, n, last]))
+                .collect();
+            let entries: Vec<String> = pref.user_dictionary().entries_ref().iter().map(|e| e.to_string()).collect();
+            (freq, entries)
+        };
+        let sessions = store.lock().unwrap().verif_len();
+        RpcResult::Ok(serde_json::json!({
+            "frequencies": freq,
+            "user_entries": entries,
+            "sessions": sessions,
+            "entries_sent": ENTRIES_SENT.load(Ordering::SeqCst),
+            "entries_applied": ENTRIES_APPLIED.load(Ordering::SeqCst),
+            "saves_done": SAVES_DONE.load(Ordering::SeqCst),
+        }))
+    })?;
+    Ok(())
+}
